@@ -12,7 +12,10 @@ import (
 
 func c07Opts() (o specOpts, msg verif.Opts) {
 	msg = smallMsgOpts()
-	switch verif.Choose("slice", 2) {
+	switch verif.Choose("slice", 3) {
+	case 2:
+		// branch-target variables bound to values of any type
+		o = specOpts{actionMode: 0, noNilBranches: true, branches: 1, patMode: 0, fixedErr: true, pooled: true, small: true, targetVars: true}
 	case 0:
 		// every action outcome (including "no execution, no error") x error settings x branching
 		o = specOpts{actionMode: 2, branches: 1, patMode: 0, fixedTarget: true, actKinds: kindsAll, pooled: true, small: true}
@@ -58,7 +61,7 @@ func VerifC07Walk() {
 	case 0:
 		st.Bs = nil // absent bindings
 	case 1:
-		st.Bs = match.Bindings(verif.AnyMap("bs", smallBindingsOpts()))
+		st.Bs = match.Bindings(verif.AnyMap("bs", c07Bindings(o)))
 	default:
 		st.Bs = match.Bindings{"p!": 1.0, "k": "v"}
 	}
@@ -138,7 +141,7 @@ func VerifC07Step() {
 	case 0:
 		st.Bs = nil
 	case 1:
-		st.Bs = match.Bindings(verif.AnyMap("bs", smallBindingsOpts()))
+		st.Bs = match.Bindings(verif.AnyMap("bs", c07Bindings(o)))
 	default:
 		st.Bs = match.Bindings{"p!": 1.0, "k": "v"}
 	}
@@ -297,4 +300,12 @@ func VerifC07Compile() {
 			verif.Assert("no-compile-time-problem-at-run-time", !unc && !notc)
 		}
 	}
+}
+
+func c07Bindings(o specOpts) verif.Opts {
+	if o.targetVars {
+		return verif.Opts{Depth: 1, Width: 1, Pool: []string{"k", "x"}, ValPool: []string{"n1"}, Finite: true, NoVar: true,
+			Leaf: verif.TStr | verif.TF64 | verif.TNil | verif.TBool}
+	}
+	return smallBindingsOpts()
 }
